@@ -368,7 +368,7 @@ static void rf32_run(uint64_t c)
 VF_SUITE(render_f32_biased, rf32_count, rf32_run)
 
 // (b) doubles through igris_f64toa and igris_ftoa
-static uint64_t rf64_count() { return (vf::thorough() ? 50000000ull : 1000000ull) / RB; }
+static uint64_t rf64_count() { return (vf::thorough() ? 24000000ull : 1000000ull) / RB; }
 static void rf64_run(uint64_t c)
 {
     vf::Rng r(vf::seed(), 0xC12F64, c);
